@@ -296,15 +296,24 @@ type histPlan struct {
 	ramp     string // "", "small" (crosses 255), "big" (crosses 65,535)
 	uniq     int
 	inDomain bool
-	bare     bool // no attributes / events / links / exemplars anywhere
-	allUniq  bool // big ramps: unique values only
-	narrow   int  // G.Narrow for every batch of the history
+	// numRamp: the ramps of this history also feed the non-string dictionary columns (see G.NumRamp)
+	numRamp, numRampDrawn bool
+	bare                  bool // no attributes / events / links / exemplars anywhere
+	allUniq               bool // big ramps: unique values only
+	narrow                int  // G.Narrow for every batch of the history
 }
 
 func (r *run) genBatch(hp *histPlan, i int) *batchIn {
 	t := r.tape
 	b := &batchIn{signal: hp.signals[t.Draw(core.Gen, len(hp.signals))], kind: "normal"}
-	g := &G{t: t, InDomain: hp.inDomain, Bare: hp.bare, Narrow: hp.narrow}
+	if hp.ramp != "" && !hp.numRampDrawn {
+		hp.numRampDrawn = true
+		hp.numRamp = t.Chance(core.Ext, 1, 3)
+		if hp.numRamp {
+			r.probe("ramp_over_non_string_dictionary_columns")
+		}
+	}
+	g := &G{t: t, InDomain: hp.inDomain, Bare: hp.bare, Narrow: hp.narrow, NumRamp: hp.numRamp}
 	switch {
 	case hp.ramp == "small" && t.Chance(core.Gen, 1, 4):
 		// many resources and scopes with unique names / schema URLs: the
